@@ -330,11 +330,13 @@ def trainSession (maxKeep : Nat) (c : TrainCfg) (d : Dir Nat) : Except Err Sessi
         .ok ⟨offset, evs, ev, d'⟩
 
 /-- a second `train()` on the SAME trainer object: `self.state` is not written back by `train()`, so the
-    loop starts from the same offset again; only the directory has changed -/
+    loop starts from the same offset again; the directory has changed, and the training iterator is NOT
+    re-started (it continues after the batches the first call consumed) -/
 def trainAgain (maxKeep : Nat) (c : TrainCfg) (o : SessionOut) : Except Err SessionOut :=
   match sessionLoop c o.offset with
   | .error e => .error e
-  | .ok evs =>
+  | .ok evs0 =>
+    let evs := evs0.map (fun e => { e with batch := e.batch + o.events.length })
     let saves := ((evs.filter (·.ckpt)).map (·.step + 1)) ++ [max o.offset c.numSteps]
     let d' := if c.checkpointing then saveAll maxKeep o.dir (saves.map (fun s => (s, s))) else o.dir
     let ev := if c.logflag then c.stepsPerEval * (evs.filter (·.logged)).length else 0
@@ -350,6 +352,11 @@ def trainChain (maxKeep : Nat) : Dir Nat → List TrainCfg → Except Err (List 
       match trainChain maxKeep o.dir cs with
       | .error e => .error e
       | .ok (outs, d') => .ok (o.events.map (·.step) :: outs, d')
+
+/-- the rows of the training set handed to each executed step: batch `e.batch` of the iterator (specification
+    `specBatch` of §3: a function of the key, the sizes and the batch number only) -/
+def sessionRows {κ : Type} (K : KeyOps κ) (key : κ) (n b : Nat) (evs : List StepEv) : List (Nat × List Nat) :=
+  evs.map (fun e => (e.step, specBatch K key n b true e.batch))
 
 /-- Specification of a chain: session `i` executes `s … Nᵢ−1` where `s` is the largest target so far -/
 def specChain : Nat → List Nat → List (List Nat)
